@@ -398,6 +398,12 @@ def check_exactness(ctx, funcs: typing.Iterable[FuncInfo], rule="EXA", exempt: t
         sink_args = [n.args[0]]
         what = f"model time sink {name}()"
         blamed = {FLOAT, QF}
+      elif name == "from_seconds" and isinstance(n.func, ast.Attribute) and n.args and unparse(n.func.value).split(".")[-1] in ("SmpteTimeCode", "ClockTime"):
+        if trunc_scope is not None and not trunc_scope(f):
+          continue
+        sink_args = [n.args[0]]
+        what = f"time-code construction {unparse(n.func)}()"
+        blamed = {FLOAT, QF}
       elif name == "DiscreteAnimationStep" and step_cls is not None:
         for kw in n.keywords:
           if kw.arg in ("begin", "end"):
